@@ -562,6 +562,18 @@ func runAged(c agedCase) harness.Result {
 		if r := judge(fc, p, o); r.Err != nil {
 			return harness.Fail("call #%d on one long-lived %s client (%d empty and %d data reads so far): %v; this call: %+v", i+1, c.Kind, emptyReads, dataReads, r.Err, fc)
 		}
+		if i%3 == 0 && c.Kind == cli.TCP {
+			// the same request once more under the next transaction id (polling): the reply differs from the previous one in the
+			// transaction id only, and must come back as itself
+			twin := fc
+			twin.Req.Tx = fc.Req.Tx + 1
+			if tp, err := prepare(twin); err == nil && !(tp.affected && tp.predicted.Timeout) {
+				to := sess.Call(twin.Req, tp.sc.Stream, tp.sc.Events)
+				if r := judge(twin, tp, to); r.Err != nil {
+					return harness.Fail("call #%d on one long-lived %s client, the same request as the call before under the next transaction id: %v; this call: %+v", i+1, c.Kind, r.Err, twin)
+				}
+			}
+		}
 	}
 	labels := []string{"kind:" + c.Kind, fmt.Sprintf("calls-on-one-client:%d", c.N)}
 	if emptyReads > dataReads+4000 {
